@@ -280,6 +280,8 @@ cLUMemInit(fact_t fact, void *work, int_t lwork, int m, int n, int_t annz,
 	    nzlmax /= 2;
 	    if ( nzlumax < annz ) {
 		printf("Not enough memory to perform factorization.\n");
+		SUPERLU_FREE(Glu->expanders);
+		Glu->expanders = NULL;
 		return (cmemory_usage(nzlmax, nzumax, nzlumax, n) + n);
 	    }
 #if ( PRNTlevel >= 1)
@@ -343,8 +345,11 @@ cLUMemInit(fact_t fact, void *work, int_t lwork, int m, int n, int_t annz,
     Glu->nzlumax = nzlumax;
     
     info = cLUWorkInit(m, n, panel_size, iwork, dwork, Glu);
-    if ( info )
+    if ( info ) {
+	SUPERLU_FREE(Glu->expanders);
+	Glu->expanders = NULL;
 	return ( info + cmemory_usage(nzlmax, nzumax, nzlumax, n) + n);
+    }
     
     ++Glu->num_expansions;
     return 0;
